@@ -285,6 +285,9 @@ def _float_edits(v):
         return [-v, 1e308]
     out = [math.nextafter(v, math.inf), v + 1.0, math.nan]
     out.append(-v)                               # 0.0 -> -0.0: equal
+    if v != 0.0:
+        # constants inside / just outside each other's isclose band: still different declarations
+        out += [v * (1 + 5e-10), v * (1 + 1.4e-9)]
     return out
 
 
